@@ -992,9 +992,11 @@ class World:
                             it.inputs[f'{pn}.{fname}'] = it.read_field(pv.t, fname)
             env = dict(params)
             env.update(closure)
+            it.ghost_param_env = {}
             for gn, gty in (ghost_params or {}).items():
                 env[gn] = self.fresh_param(it, gn, gty)
                 it.inputs['ghost.' + gn] = env[gn].t
+                it.ghost_param_env[gn] = env[gn]       # visible to loop invariants as well
             it.no_float_overflow = bool(c.get('assume_no_float_overflow'))
             it.ghost['alloc!entry'] = it.alloc_mark()
             for g in self.ghost_names:
